@@ -121,7 +121,7 @@ gen("C17", "C17 — sells before buys: batch ordering and time priority. Stateme
 
 
 IMPS = """From Coq Require Import ZArith NArith List Bool String Permutation Arith.
-From Alator Require Import Model.Sort Model.Exchange Proofs.SortProofs Proofs.SortExchange.
+From Alator Require Import Model.Sort Model.Exchange Model.ExchangeStd Proofs.SortProofs Proofs.SortExchange.
 Import ListNotations."""
 gen("C17sort", "C17, the sort itself. `order_buffer.sort_by(|a, _b| if a is sell-side {Less} else {Greater})` uses a "
     "comparator that looks only at its first argument — not a total order, so sort_by's contract says nothing and the "
